@@ -48,12 +48,12 @@ def new_task():
 # --------------------------------------------------------------------------
 # generation: direct workflows
 
-def gen_direct(D, F=None, max_tasks=8):
+def gen_direct(D, F=None, max_tasks=8, prefix='t', name='wf'):
     """Returns (prog, outcomes)."""
     F = F or DEFAULT_FEATS
     n = D.int(2, max_tasks)
-    names = ['t%d' % i for i in range(n)]
-    prog = {'name': 'wf', 'type': 'direct', 'tasks': {}, 'order': names,
+    names = ['%s%d' % (prefix, i) for i in range(n)]
+    prog = {'name': name, 'type': 'direct', 'tasks': {}, 'order': names,
             'input': {}, 'defaults': None, 'output': None,
             'lang': 'jinja' if (F['jinja'] and D.bool(0.3)) else 'yaql'}
     for nm in names:
@@ -238,6 +238,33 @@ def gen_direct(D, F=None, max_tasks=8):
                 {'to': 'noop', 'guard': ['bad']})
         else:
             prog['tasks'][nm]['bad'] = kind
+
+    # with-items
+    if F.get('with_items') and D.bool(0.5):
+        nm = D.choice(names)
+        k = D.int(0, 4)
+        t = prog['tasks'][nm]
+        t['with-items'] = 'i in <% [' + ', '.join(
+            str(x) for x in range(k)) + '] %>'
+        t['action'] = 'std.echo output=<% $.i %>'
+        if D.bool(0.6):
+            t['concurrency'] = D.int(1, 3)
+        items = {}
+        for i in range(k):
+            if D.bool(0.2):
+                items[str(i)] = ['err', 'item-%d' % i]
+        base = outcomes[nm][0]
+        if items:
+            outcomes[nm] = [['items', items, ['ok', 'a']]]
+        elif base[0] == 'err':
+            outcomes[nm] = [['items', {'0': base}, ['ok', 'a']]]
+        t['n_items'] = k
+
+    # asynchronous actions (complete only through an operator command)
+    if F.get('async_actions'):
+        for nm in names:
+            if D.bool(0.15) and not prog['tasks'][nm].get('with-items'):
+                outcomes[nm] = [['never']]
 
     # rendering forms
     for nm in prog['order']:
@@ -472,6 +499,48 @@ def render(prog, wrap=True):
         wf['tasks'][nm] = render_task(prog, nm)
     doc = {'version': '2.0', prog['name']: wf}
     return yaml.safe_dump(doc, default_flow_style=False, sort_keys=False)
+
+
+def gen_nested(D, F=None, max_tasks=6):
+    """A parent workflow whose tasks may call generated sub-workflows.
+    Returns (prog, outcomes) where prog['subs'] lists the child programs."""
+    F = dict(F or DEFAULT_FEATS)
+    parent, outc = gen_direct(D, F, max_tasks)
+    nsubs = D.int(1, 2)
+    subs = []
+    FS = dict(F, cycles=False, defaults=False, expr_failures=False,
+              with_items=False)
+    for i in range(nsubs):
+        sp, so = gen_direct(D, FS, 3, prefix='s%d_' % i, name='sub%d' % i)
+        sp['output'] = None
+        subs.append(sp)
+        outc.update(so)
+    # depth 2: sub0 may call sub1
+    if nsubs == 2 and D.bool(0.3):
+        nm = D.choice(subs[0]['order'])
+        subs[0]['tasks'][nm]['workflow'] = 'sub1'
+    cands = [nm for nm in parent['order']
+             if not parent['tasks'][nm].get('bad')]
+    k = D.int(1, min(2, len(cands)))
+    for nm in D.subset(cands, k, k):
+        parent['tasks'][nm]['workflow'] = 'sub%d' % D.int(0, nsubs - 1)
+        parent['tasks'][nm].pop('action', None)
+        if parent['tasks'][nm].get('with-items'):
+            parent['tasks'][nm]['with-items'] = \
+                parent['tasks'][nm]['with-items']
+    parent['subs'] = subs
+    return parent, outc
+
+
+def render_all(prog):
+    """Render a program together with its sub-workflows."""
+    import yaml as _y
+    doc = _y.safe_load(render(prog))
+    for sp in prog.get('subs') or []:
+        d = _y.safe_load(render(sp))
+        d.pop('version')
+        doc.update(d)
+    return _y.safe_dump(doc, default_flow_style=False, sort_keys=False)
 
 
 def canonical(prog):
